@@ -496,8 +496,11 @@ class ThreadPool(object):
                         # Call the method
                         future.execute(method, args, kwargs)
                     except Exception as ex:
+                        # Not all callables have a name (partial, ...)
                         self._logger.exception(
-                            "Error executing %s: %s", method.__name__, ex
+                            "Error executing %s: %s",
+                            getattr(method, "__name__", method),
+                            ex,
                         )
                     finally:
                         # Mark the action as executed
